@@ -1016,7 +1016,30 @@ impl<'a> Concrete<'a> {
 
     /// `calculate_size()`; part builders have no public size function (None).
     pub fn size(&self) -> Option<Result<usize, RtcpWriteError>> {
-        self.writer().map(|w| w.calculate_size())
+        // method syntax on the concrete type, as a caller writes it: an inherent method of the same
+        // name would be the one a caller reaches
+        Some(match self {
+            Concrete::Sr(b) => b.calculate_size(),
+            Concrete::Rr(b) => b.calculate_size(),
+            Concrete::Sdes(b) => b.calculate_size(),
+            Concrete::Bye(b) => b.calculate_size(),
+            Concrete::App(b) => b.calculate_size(),
+            Concrete::Unknown(b) => b.calculate_size(),
+            Concrete::Tfb(b) => b.calculate_size(),
+            Concrete::Pfb(b) => b.calculate_size(),
+            Concrete::TfbS(b) => b.calculate_size(),
+            Concrete::PfbS(b) => b.calculate_size(),
+            Concrete::PbS(b) => b.calculate_size(),
+            Concrete::Third(b) => b.calculate_size(),
+            Concrete::Compound(b) => b.calculate_size(),
+            Concrete::Pb(b) => b.calculate_size(),
+            Concrete::Fci(FciAny::Nack(b)) => b.calculate_size(),
+            Concrete::Fci(FciAny::Fir(b)) => b.calculate_size(),
+            Concrete::Fci(FciAny::Sli(b)) => b.calculate_size(),
+            Concrete::Fci(FciAny::Rpsi(b)) => b.calculate_size(),
+            Concrete::Fci(FciAny::Pli(b)) => b.calculate_size(),
+            Concrete::Chunk(_) | Concrete::Item(_) => return None,
+        })
     }
 
     /// The public `write_into`.
